@@ -50,8 +50,8 @@ static void do_op(int tid, int k)
 	{
 	case 'C': r = rngCreate(tape_read, &tapes[tid]); break;
 	case 'c': r = rngCreate(0, 0); break;
-	case 'S': rngStepR(out, (size_t)op->arg, 0); break;
-	case 'R': rngStepR2(out, (size_t)op->arg, 0); break;
+	case 'S': if (op->arg <= C18_OUT) rngStepR(out, (size_t)op->arg, 0); break;
+	case 'R': if (op->arg <= C18_OUT) rngStepR2(out, (size_t)op->arg, 0); break;
 	case 'K': rngRekey(); break;
 	case 'V': r = rngIsValid() ? 1 : 0; break;
 	case 'X': rngClose(); break;
